@@ -290,6 +290,8 @@ def run(ctx):
     _C09y.r9_write_errors_funnel(ctx)            # a write that fails part-way ends the session: the next stream's frame never lands inside the truncated one
     _C13y.r5_request_path_never_closes(ctx)      # one stream's refusal gives up that stream, not the session its siblings run on
     _C03y.r2_peek_then_consume(ctx)              # every complete frame in the buffer is handed out before decode asks for more input
+    from . import C20 as _C20q
+    _C20q.r6_containment(ctx)     # every stream is served by a task of its own: the loop that hands out new streams waits for nothing that one stream has yet to send
     from . import C20 as _C20p
     _C20p.r17_panicking_index_methods(ctx, _C20p.input_reachable(ctx))   # text from the peer cannot panic the dispatcher: a panic there ends every stream of the session, not the one the frame was for
     from . import C01 as _C01x, C20 as _C20x
